@@ -32,7 +32,7 @@ def _gen_coef(rng, lo=0.2, hi=1.5, signed=True):
     if signed and rng.random() < 0.5:
         v = -v
     # generic: add irrational-ish jitter so that no two coefficients are simple ratios
-    return round(v + rng.uniform(-0.01, 0.01) * math.pi, 9)
+    return v + rng.uniform(-0.01, 0.01) * math.pi  # full precision: exact ties have probability ~1e-16
 
 
 # ======================================================================================
@@ -165,11 +165,11 @@ def gen_recipe(rng, name: str, want: dict | None = None) -> dict:
             coef[f"x_{d['name']}_{c['name']}"] = _gen_coef(rng, 0.1, 0.9)
     if len(dchoices) == 2:
         coef["x_w_q"] = _gen_coef(rng, 0.1, 0.6)
-    coef["e0"] = round(rng.uniform(0.2, 0.7), 6)
-    coef["e1"] = round(rng.uniform(0.05, 0.3), 6)
-    coef["ke"] = round(rng.uniform(0.5, 2.0), 6)
+    coef["e0"] = rng.uniform(0.2, 0.7)
+    coef["e1"] = rng.uniform(0.05, 0.3)
+    coef["ke"] = rng.uniform(0.5, 2.0)
     coef["page"] = _gen_coef(rng, 0.02, 0.08)
-    coef["y"] = round(rng.uniform(0.05, 0.6), 6)
+    coef["y"] = rng.uniform(0.05, 0.6)
     coef["sdir"] = _gen_coef(rng, 0.011, 0.037)
 
     states_order = [d["name"] for d in dstates] + (["a"] if cstate else [])
@@ -312,8 +312,6 @@ def render(recipe: dict) -> tuple[str, dict]:
             shift += f" + {_lit(c['e1'])} * {ds[0]}"
         uparams.append("ke")
         body.append(f"u = u - ke * (e - ({shift})) ** 2")
-    if has_a and not has_cons:
-        pass
     if has_age and dc:
         uargs.append("age")
         body.append(f"u = u + {_lit(c['page'])} * (age - 18) * {dc[0]}")
@@ -580,3 +578,13 @@ def all_discrete_state_combos(recipe: dict):
     names = [d["name"] for d in recipe["dstates"]]
     for combo in itertools.product(*[range(d["n"]) for d in recipe["dstates"]]):
         yield dict(zip(names, combo, strict=True))
+
+
+def expand_agents(recipe: dict, agents):
+    """Batches may store their agents explicitly or as a seeded generator (large panels)."""
+    if isinstance(agents, dict):
+        import random
+
+        rng = random.Random(agents["gen_seed"])
+        return [gen_agent(rng, recipe, agents.get("on_grid_bias", 0.4)) for _ in range(agents["n"])]
+    return agents
